@@ -814,6 +814,15 @@ func (p *parser) lowerParenthesizedOptionalChain(loc logger.Loc, e *js_ast.ECall
 }
 
 func (p *parser) lowerAssignmentOperator(value js_ast.Expr, callback func(js_ast.Expr, js_ast.Expr) js_ast.Expr) js_ast.Expr {
+	// "super.a op= b" inside a lowered async function must not use "super" directly
+	if property := p.extractSuperProperty(value); property.Data != nil {
+		keyFunc, keyWrapFunc := p.captureValueWithPossibleSideEffects(value.Loc, 2, property, valueDefinitelyNotMutated)
+		return keyWrapFunc(callback(
+			p.callSuperPropertyWrapper(value.Loc, keyFunc()),
+			p.callSuperPropertyWrapper(value.Loc, keyFunc()),
+		))
+	}
+
 	switch left := value.Data.(type) {
 	case *js_ast.EDot:
 		if left.OptionalChain == js_ast.OptionalChainNone {
